@@ -42,8 +42,8 @@ CHECKS = {
    note="Exhaustive only up to the stated bound. Import edges are added between registered modules (the harness registers the target first); rename targets are fresh paths. SharedModuleGraph (locking) is not exercised.",
    technique="run-time-checked contracts on the real code, exhaustive enumeration of operation sequences up to a stated bound (bounded stand-in for contract verification)"),
  "C28": dict(engine="kani", category="other",
-   text="BOUNDED, not a proof. els::util::pos_to_byte_index (real text, Kani with unwinding bound and unwinding assertions) on every valid UTF-8 document of at most 4 bytes (multi-byte and astral characters, LF and CRLF) and every position with line <= 3, character <= 4: the result is <= len, on a char boundary (so String::replace_range in incremental_update cannot panic) and equals the byte index the LSP position denotes (UTF-16 code units; an offset past the end of a line means the end of that line).",
-   note="Only documents up to the stated size. FileCache::incremental_update itself (lock, VFS, re-lex), full-document sync, and 'the server keeps running' beyond the panic-freedom of the range computation are not carried.",
+   text="BOUNDED, not a proof. els::util::pos_to_byte_index (real text, Kani with unwinding bound and unwinding assertions) on every valid UTF-8 document of at most 4 bytes (multi-byte and astral characters, LF and CRLF) and every position with line <= 3, character <= 4: the result is <= len, on a char boundary (so String::replace_range in incremental_update cannot panic) and equals the byte index the LSP position denotes (UTF-16 code units; an offset past the end of a line means the end of that line). Second stand-in (run-time-checked contract through a guarded hook): for every document of up to 2 characters over {a, e-acute, astral, LF} and every didChange notification with one or two small changes (about 400,000 notifications), the copy kept by the real FileCache::incremental_update equals the copy of an independent LSP reference editor and the server does not panic.",
+   note="Only documents up to the stated size. Histories of several notifications, full-document sync and the rest of the server loop are not carried.",
    technique="Kani bounded harness (stated unwinding bound) on the extracted real function against an independent LSP position spec; counterexamples replayed through the guarded hook"),
  "C31": dict(engine="replay", category="exploration",
    text="BOUNDED, not a proof. std::path::Components is outside Verus and a Kani harness over 4 symbolic path bytes did not finish in 15 minutes, so the contracts are executable predicates checked on the real cheap_canonicalize_path / normalize_path / NormalizedPathBuf::new for EVERY path of up to 8 components (the property's own bound; thorough: 10) over {., .., a, b}, relative and absolute: normalisation is idempotent, the number of leading `..` of a relative path is preserved, and two paths with the same normal form have the same lexical resolution (name the same file).",
@@ -119,7 +119,7 @@ def main():
         })
     for e in ENGINES:
         e["serves_properties"] = sorted(p for p in CHECKS if e["name"] in CHECKS[p]["engine"] or e["name"] in ("extract", "replay"))
-    hooks_commits = ["b58f5221", "ea3878b4"]
+    hooks_commits = ["b58f5221", "ea3878b4", "fe10b3c7"]
     m = {
         "version": 1,
         "setup_cmd": "./tools/setup.sh",
